@@ -8,6 +8,12 @@
 
 #if FAMILY == 1 || FAMILY == 2
 #   include <cds/container/cuckoo_set.h>
+#elif FAMILY == 4
+#   include "maps.h"
+#   include <cds/container/cuckoo_map.h>
+#   include <cds/container/striped_map/std_list.h>
+#   include <cds/container/striped_map/std_map.h>
+#   include <cds/container/striped_map.h>
 #elif FAMILY == 3
 #   include <cds/container/striped_set/std_list.h>
 #   include <cds/container/striped_set/std_set.h>
@@ -104,6 +110,38 @@ typedef cc::StripedSet< std::list<Item>, cds::opt::hash<item_hash_id>, cds::opt:
 }
 #endif
 
+#if FAMILY == 4
+namespace {
+struct caps_lmap: caps_map_hp {
+    static constexpr PtrKind kind = PK_NONE;
+    typedef std::false_type has_extract; typedef std::false_type has_get;
+};
+struct ih1 { size_t operator()( int k ) const { return size_t( k ); } };
+struct ih2 { size_t operator()( int k ) const { return ~size_t( k ); } };
+struct int_less { bool operator()( int a, int b ) const { return a < b; } };
+template <class Policy, class Probe, bool Store>
+struct ckm_traits: public cc::cuckoo::traits {
+    typedef cds::opt::hash_tuple< ih1, ih2 > hash;
+    typedef std::equal_to<int> equal_to; typedef int_less less;
+    typedef Policy mutex_policy; typedef Probe probeset_type;
+    static bool const store_hash = Store;
+};
+typedef cds::intrusive::cuckoo::striping< cds_verif::recursive_mutex, 2 > pol_striping;
+typedef cds::intrusive::cuckoo::refinable< cds_verif::recursive_mutex, 2 > pol_refinable;
+typedef MapWrap< cc::CuckooMap< int, long, ckm_traits<pol_striping, cc::cuckoo::list, true> > > ckm_str;
+typedef MapWrap< cc::CuckooMap< int, long, ckm_traits<pol_refinable, cc::cuckoo::vector<2>, false> > > ckm_ref;
+typedef cc::striped_set::single_bucket_size_threshold<1> resize_at_2;
+typedef MapWrap< cc::StripedMap< std::list< std::pair<int const, long> >, cds::opt::hash<ih1>, cds::opt::less<int_less>,
+    cds::opt::mutex_policy< cc::striped_set::striping< cds_verif::mutex > >, cds::opt::resizing_policy< resize_at_2 > > > stm_list;
+typedef MapWrap< cc::StripedMap< std::map<int, long, int_less>, cds::opt::hash<ih1>, cds::opt::less<int_less>,
+    cds::opt::mutex_policy< cc::striped_set::refinable< cds_verif::recursive_mutex > >, cds::opt::resizing_policy< resize_at_2 > > > stm_map;
+}
+namespace vh {
+template <> inline ckm_str* make_set<ckm_str>( SetCfg const& ) { return new ckm_str( 4, 2, 1 ); }
+template <> inline ckm_ref* make_set<ckm_ref>( SetCfg const& ) { return new ckm_ref( 4, 2, 1 ); }
+}
+#endif
+
 int main( int argc, char** argv )
 {
     vh::take_property( argc, argv, "C16" );
@@ -115,6 +153,11 @@ int main( int argc, char** argv )
 #elif FAMILY == 2
     family<ck_ref_list, caps_lock>( "CuckooSet-refinable-list-storehash", { 1, 5, 9, 13, 17, 21 }, 8, 2, 3, 4 );
     family<ck_ref_vec, caps_lock>( "CuckooSet-refinable-vector2", { 1, 5, 9, 13, 17, 21 }, 24, 2, 3, 4 );
+#elif FAMILY == 4
+    family<ckm_str, caps_lmap>( "CuckooMap-striping-list-storehash", { 1, 5, 9, 13, 17, 21 }, 12, 2, 3, 4 );
+    family<ckm_ref, caps_lmap>( "CuckooMap-refinable-vector2", { 1, 5, 9, 13, 17, 21 }, 24, 2, 3, 4 );
+    family<stm_list, caps_lmap>( "StripedMap-stdlist-striping", { 1, 17, 33, 49, 65, 81 }, 12, 2, 3, 1 );
+    family<stm_map, caps_lmap>( "StripedMap-stdmap-refinable", { 1, 17, 33, 49, 65, 81 }, 24, 2, 3, 1 );
 #elif FAMILY == 3
     // 16 buckets at least: keys 1, 17, 33, 49, 65, 81 share bucket 1; a bucket of more than one item triggers a resize
     family<st_list_striping, caps_lock>( "StripedSet-stdlist-striping", { 1, 17, 33, 49, 65, 81 }, 8, 2, 3, 1 );
